@@ -398,15 +398,7 @@ func c11WritePass(c *fw.Ctx, r *c11Repo) {
 				}
 				var ss []string
 				if p.Kind >= 0 {
-					if p.Kind == c11Prefix {
-						if p.Role == "" {
-							ss = append(ss, "Prefix(empty)")
-						} else {
-							ss = append(ss, "Prefix")
-						}
-					} else {
-						ss = append(ss, c11KindName[p.Kind]+"("+rr2Class(r, roles, newBy, p.Role)+")")
-					}
+					ss = append(ss, "read") // any read before the write: the kind is in the replay, not in the key
 				}
 				for _, w := range w2 {
 					ss = append(ss, w.Name)
@@ -438,9 +430,3 @@ func c11wOpStr(o c11Op) string {
 	return o.String()
 }
 
-func rr2Class(r *c11Repo, roles map[string]string, newBy map[string]c11wNew, role string) string {
-	if _, ok := newBy[role]; ok {
-		return "new"
-	}
-	return r.roleClass(role)
-}
